@@ -199,6 +199,18 @@ def run(ctx):
 
     # ---- the message of an error must be buildable for any offending object, or no ConstructError (and no path) is raised at all (shared with C06.R10)
     C06.check_formats(ctx, "C18.R5")
+    # ---- an error that is not a ConstructError carries no path at all: on the build side of the numeric classes every foreign raiser is
+    #      translated (shared with C03.R4), and the stream helpers translate every raw call, also those made while composing a message (C06.R1)
+    from . import C03
+    C03.helper_range_checks(ctx, "C18.R5")      # the integer helpers turn every out-of-range value into the ValueError the constructs translate
+    esc = C06.escaping(ctx, summariser(ctx))
+    for cls in ("FormatField", "BytesInteger", "BitsInteger", "VarInt", "ZigZag"):
+        for meth in ("_build", "_parse"):
+            C06.check_foreign(ctx, M.method(cls, meth), cls, esc, rule="C18.R5")
+    for name in ("stream_read", "stream_read_entire", "stream_write", "stream_seek", "stream_tell", "stream_size", "stream_iseof"):
+        f = M.functions.get(name)
+        if f is not None:
+            C06.check_rawio(ctx, f, None, rule="C18.R5")
     # ---- positive control: a raise without path and a sub call with a literal path must be reported
     ctl = control_model(
         "class ConstructError(Exception):\n    pass\nclass StreamError(ConstructError):\n    pass\n"
